@@ -15,7 +15,7 @@ MP_SRCS = ['src/format.cc', 'src/posix.cc', 'src/os.cc', 'src/nl-reader.cc', 'sr
            'src/expr-info.cc', 'src/expr.cc']
 ASAN = ('detect_leaks=0:abort_on_error=0:allocator_may_return_null=1:max_allocation_size_mb=1024:symbolize=0:'
         'quarantine_size_mb=8:malloc_context_size=8:handle_abort=0')
-WORK = os.path.join(vcheck.VERIF, 'build', 'work', 'C02')
+WORK = os.path.join(vcheck.VERIF, 'build', 'work', 'C02', 'run%d' % os.getpid())   # concurrent runs do not collide
 
 REQUIRED_FEATURES = (
     # segment kinds
@@ -55,6 +55,14 @@ def _fix_stack():
             want = hard
         resource.setrlimit(resource.RLIMIT_STACK, (want, hard))
     except (ValueError, OSError):
+        pass
+
+
+def _cleanup():
+    shutil.rmtree(WORK, ignore_errors=True)
+    try:
+        os.rmdir(os.path.dirname(WORK))
+    except OSError:
         pass
 
 
@@ -183,7 +191,7 @@ def main(tier, seed):
         'by the ladders is the linear growth of stack use with nesting depth, not a particular threshold',
         'padding to a page multiple inserts a comment before the first line feed (appended spaces if there is none)',
     ]
-    shutil.rmtree(WORK, ignore_errors=True)
+    _cleanup()
     return chk.finish()
 
 
@@ -205,5 +213,5 @@ def replay(path):
     e.update(_env())
     p = subprocess.run([binary] + args, capture_output=True, text=True, env=e)
     print(p.stdout[-6000:])
-    shutil.rmtree(WORK, ignore_errors=True)
+    _cleanup()
     return 1 if ('"violation"' in p.stdout or '"ladder_crash"' in p.stdout) else 0
